@@ -590,7 +590,7 @@ Section At.
     admits1 (out1 (reg_in interp tab) (dflt_in interp d v) v o) b = true ->
     op_ok_at interp tab d v o b = true.
   Proof.
-    destruct o as [ty f|d'|v'|ty p|ty p|rt p|rt p|f|f|ty|ty|cs sc|a]; simpl;
+    destruct o as [ty f|d'|v'|ty p|ty p|rt p|rt p|f|f|ty|ty|cs sc|a i sv]; simpl;
       destruct b as [|n|po|evs|l| | |l]; simpl; try discriminate; try (intro; reflexivity).
     - (* Route *) intro E. apply Z.eqb_eq in E. subst. apply Z.eqb_refl.
     - (* RoutePID *)
@@ -716,8 +716,8 @@ Section Hist.
   Qed.
 
   (* which node asks does not matter: no decision reads the node's own address *)
-  Lemma self_irrelevant h a o :
-    obs_at interp pinterp (h ++ [OSelf a]) o = obs_at interp pinterp h o.
+  Lemma self_irrelevant h a i sv o :
+    obs_at interp pinterp (h ++ [OSelf a i sv]) o = obs_at interp pinterp h o.
   Proof.
     rewrite !obs_at_history, fns_at_snoc. unfold last_view, dflt_at.
     rewrite !fold_left_app. reflexivity.
@@ -737,7 +737,7 @@ Section Hist.
     s_fns (next pinterp s o) = s_fns s.
   Proof.
     intros D N R. unfold next. cbn [s_fns]. unfold fns_after.
-    destruct o as [ty f|d'|v'|ty p|ty p|rt p|rt p|f|f|ty|ty|cs sc|a]; try discriminate;
+    destruct o as [ty f|d'|v'|ty p|ty p|rt p|rt p|f|f|ty|ty|cs sc|a i sv]; try discriminate;
       try reflexivity; try (exfalso; eapply N; reflexivity);
       match goal with
       | |- context [op_key ?o] => destruct (op_key o) as [[ty0 p0]|]; [|reflexivity]
@@ -770,7 +770,7 @@ Section Hist.
     admits (obs_at interp pinterp h o) b = true -> op_ok_b interp pinterp h o b = true.
   Proof.
     rewrite obs_at_history.
-    destruct o as [ty f|d'|v'|ty p|ty p|rt p|rt p|f|f|ty|ty|cs sc|a];
+    destruct o as [ty f|d'|v'|ty p|ty p|rt p|rt p|f|f|ty|ty|cs sc|a i sv];
       try (destruct b as [|n|po|evs|l| | |l]; try discriminate; apply monitor_at).
     destruct b as [|n|po|evs|l| | |l]; try discriminate. apply monitor_calls.
   Qed.
